@@ -9,7 +9,7 @@ import (
 func init() { campaigns["C04"] = runC04 }
 
 func runC04(e *env) error {
-	e.rep.Rule = "cases = (converter, source value with internal sharing): converters without custom functions over generated type pairs, half of them with skipCopySameType (plus a pinned set: identical pairs, named type vs identical unnamed literal in both directions, value-to-pointer of identical types, each at top level / field / element / map value), executed on values in which the same pointer or slice is reachable along several paths; observed: which locations of the result are locations of the source (address labelling by the reflective executor, zero-size types excluded), whether the erased source is unchanged after the call; the thorough tier also builds with -race and converts the same source from 8 goroutines. Compared with Gv.Eval (locations) and with the rule: without skipCopySameType no source location may appear in the result. non-trivial = the source value contains at least one reference cell; distinct = (converter, value)"
+	e.rep.Rule = "cases = (converter, source value with internal sharing): converters without custom functions over generated type pairs, half of them with skipCopySameType (plus a pinned set: identical pairs, named type vs identical unnamed literal in both directions, value-to-pointer of identical types, each at top level / field / element / map value; skipCopySameType on one method only, next to a sibling method sharing generated sub-methods with it, in both name orders), executed on values in which the same pointer or slice is reachable along several paths; observed: which locations of the result are locations of the source (address labelling by the reflective executor, zero-size types excluded), whether the erased source is unchanged after the call; the thorough tier also builds with -race and converts the same source from 8 goroutines. Compared with Gv.Eval (locations) and with the rule: without skipCopySameType no source location may appear in the result. non-trivial = the source value contains at least one reference cell; distinct = (converter, value)"
 	r := e.r.Fork(4)
 	n, per := 2, 50
 	if e.thorough {
@@ -30,7 +30,7 @@ func runC04(e *env) error {
 		plain[0].Race = true
 		skip[0].Race = true
 	}
-	res, err := runK2(e, "c04", append(append(plain, skip...), skipCopyPinnedBatch()))
+	res, err := runK2(e, "c04", append(append(plain, skip...), skipCopyPinnedBatch(), methodLevelSkipCopyBatch()))
 	if err != nil {
 		return err
 	}
@@ -163,6 +163,62 @@ func skipCopyPinnedBatch() *k2Batch {
 		}
 	}
 	kb.Types = types.String()
+	return kb
+}
+
+// methodLevelSkipCopyBatch: skipCopySameType written on ONE method of a converter; a sibling method without it converts the
+// same nested named pair (a generated sub-method, shared by signature): its result must not share memory with the source,
+// whichever of the two methods is generated first (methods are generated in name order).
+func methodLevelSkipCopyBatch() *k2Batch {
+	kb := &k2Batch{Tag: "skipcopy-method-level-pinned", Convs: map[string]string{}, ValModes: 7, Share: 60}
+	kb.Types = `type MlCustomer struct {
+	Name  string
+	Tags  []string
+	Score *int
+	Attr  map[string]string
+}
+type MlCustomerT struct {
+	Name  string
+	Tags  []string
+	Score *int
+	Attr  map[string]string
+}
+type MlOrder struct {
+	ID       int
+	Customer MlCustomer
+	Lines    []MlLine
+}
+type MlOrderT struct {
+	ID       int
+	Customer MlCustomerT
+	Lines    []MlLineT
+}
+type MlOrderA struct {
+	ID       int
+	Customer MlCustomerT
+	Lines    []MlLineT
+}
+type MlLine struct {
+	Qty  int
+	Note *string
+}
+type MlLineT struct {
+	Qty  int
+	Note *string
+}
+`
+	n := 0
+	for _, names := range [][2]string{{"Archive", "Snapshot"}, {"Zarchive", "Snapshot"}, {"Archive", "Zsnapshot"}} {
+		for _, shape := range [][2]string{{"MlOrder", "MlOrderA"}, {"*MlOrder", "*MlOrderA"}, {"[]MlOrder", "[]MlOrderA"}} {
+			for _, convLevel := range []string{"", "// goverter:skipCopySameType no\n"} {
+				name := "Ml" + itoa(n)
+				n++
+				kb.Convs[name] = "// goverter:converter\n" + convLevel + "type " + name + " interface {\n\t// goverter:skipCopySameType\n\t" + names[0] + "(source " + shape[0] + ") " + shape[1] +
+					"\n\t" + names[1] + "(source MlOrder) MlOrderT\n}\n\n"
+				kb.Order = append(kb.Order, name)
+			}
+		}
+	}
 	return kb
 }
 
